@@ -114,6 +114,9 @@ def xoroshiro_protocol(bitwidth, seed=1, n=4):
     words = (bitwidth + 63) // 64
     for k in range(n):
         sim.step({'load': 0, 'req': 1, 'seed': 0})
+        if sim.inspect('ready') != 0:
+            return dict(failed=True, observed=dict(request=k, ready_in_request_cycle=1),
+                        expected='ready low in the request cycle (the number is not there yet)')
         ws = []
         for _ in range(words):
             o, s0, s1 = xoroshiro_next(s0, s1)
@@ -177,7 +180,7 @@ def xoroshiro_protocol(bitwidth, seed=1, n=4):
     return dict(failed=False, observed='ok', expected='ok')
 
 
-def trivium_protocol(bitwidth, bpc, seed=1, n=2):
+def trivium_protocol(bitwidth, bpc, seed=1, n=3):
     import pyrtl
     rnd = random.Random(seed)
     build('trivium', bitwidth, bpc)
@@ -201,6 +204,9 @@ def trivium_protocol(bitwidth, bpc, seed=1, n=2):
     gen_cycles = (bitwidth + bpc - 1) // bpc
     for k in range(n):
         sim.step({'load': 0, 'req': 1, 'seed': 0})
+        if sim.inspect('ready') != 0:
+            return dict(failed=True, observed=dict(request=k, ready_in_request_cycle=1),
+                        expected='ready low in the request cycle (the number is not there yet)')
         bits = []
         for _ in range(gen_cycles * bpc):
             z, s = trivium_step(s)
